@@ -218,6 +218,39 @@ Definition outputs_okb (v : version) (c : compaction) (outs : list file) : bool 
 Definition compact (s : store) (c : compaction) (outs : list file) : store :=
   mkS (mem s) (apply_compaction (ver s) c outs) (seq s).
 
+
+(* ---- entry equality, sets and subsequences of entries (boolean checkers) ---- *)
+Definition entry_eqb (a b : entry) : bool :=
+  key_eqb (ek a) (ek b) && (ets a =? ets b) &&
+  match ev a, ev b with None, None => true | Some p, Some q => key_eqb p q | _, _ => false end.
+Definition subsetb (a b : list entry) : bool := forallb (fun e => existsb (entry_eqb e) b) a.
+Fixpoint subseqb (a b : list entry) : bool :=
+  match b with
+  | [] => match a with [] => true | _ => false end
+  | y :: b' => match a with
+               | [] => true
+               | x :: a' => if entry_eqb x y then subseqb a' b' else subseqb a b'
+               end
+  end.
+
+(* garbage collection (a multi-input compaction into the last level): the outputs hold a
+   subsequence of the sorted merge of the inputs, and for every key the newest version among the
+   inputs is kept, unless it is a tombstone and NO version of that key is kept.  This is what
+   every `versions = N` policy (N >= 1) does (area Gc proves it of the collector). *)
+Definition gc_heads_okb (E O : list entry) : bool :=
+  forallb (fun e =>
+    match find (fun x => key_eqb (ek x) (ek e)) E with
+    | Some h => existsb (entry_eqb h) O ||
+                (match ev h with None => true | Some _ => false end &&
+                 negb (existsb (fun o => key_eqb (ek o) (ek h)) O))
+    | None => true
+    end) E.
+Definition gc_outputs_okb (v : version) (c : compaction) (outs : list file) : bool :=
+  let E := sort_entries (input_entries v c) in
+  let O := flat_map fents outs in
+  subseqb O E && gc_heads_okb E O &&
+  forallb (fun f => match fents f with [] => false | _ => true end) outs.
+
 (* ---- well-formedness, as boolean checkers (run on every dumped tree) ---- *)
 Fixpoint sorted_entriesb (l : list entry) : bool :=
   match l with
@@ -253,3 +286,4 @@ Fixpoint desc_tsb (l : list entry) : bool :=
 Definition all_keys (s : store) : list key :=
   map ek (mem s) ++ flat_map (fun f => map ek (fents f)) (flat (ver s)).
 Definition orderedb (s : store) : bool := forallb (fun k => desc_tsb (kview s k)) (all_keys s).
+Definition file_entries (v : version) : list entry := flat_map fents (flat v).
